@@ -373,16 +373,18 @@ def hasharr_jobs(tier):
     jobs = [Job("hasharr-bigkey", ["imagemc/hasharr.c"], ["bigkey"], wraps=VA_WRAPS, weight=1)]
     jobs.append(Job("hasharr-ctor", ["imagemc/hasharr.c"], ["ctor", 1200 if X else 600], wraps=VA_WRAPS, weight=1))
     jobs.append(Job("hasharr-chain", ["imagemc/hasharr.c"], ["chain", 33000], wraps=VA_WRAPS, flavour="asan" if X else "plain", weight=30))
-    for m in ([1, 2, 3, 4, 5, 6, 7] if X else [1, 2, 3, 4]):
+    for m in ([1, 2, 3, 4, 5, 6] if X else [1, 2, 3, 4]):
         jobs.append(Job("hasharr-M%d" % m, ["imagemc/hasharr.c"], [m], wraps=VA_WRAPS, weight=10 ** max(0, m - 2)))
     if not X:   # quick: M = 5 as every history of <= 4 operations (its closure takes 90 s and is part of the thorough tier)
         jobs.append(Job("hasharr-M5-depth4", ["imagemc/hasharr.c"], [5, 4], wraps=VA_WRAPS, weight=1000))
+    else:       # thorough: M = 7 as every history of <= 5 operations (its closure does not finish within the deadline)
+        jobs.append(Job("hasharr-M7-depth5", ["imagemc/hasharr.c"], [7, 5], wraps=VA_WRAPS, weight=100000))
     jobs.append(bigfmt_job("qhasharr"))
     return jobs
 
 
 @prop("C06", "model_checking",
-      "BFS over every reachable memory image of a static hash table with M = 1..4 slots plus every history of <= 4 operations for M = 5 (thorough: closure for M = 1..7) and a universe of six "
+      "BFS over every reachable memory image of a static hash table with M = 1..4 slots plus every history of <= 4 operations for M = 5 (thorough: closure for M = 1..6, <= 5 operations for M = 7) and a universe of six "
       "keys chosen with an independent MurmurHash3: two short keys with home slot 0, one with home 1, one with home M-1 "
       "(wrap-around probing; the first collision lands in a foreign home slot and later forces relocation), two 21-byte keys "
       "with the same length and 16-byte prefix and home 1 (matched by length+prefix+MD5 only; two collision chains interleave); value lengths 1, 32, 33, 98, 99 on "
